@@ -166,12 +166,68 @@ func (p *planner) pairFamilies(fns []string, n int) {
 		}
 		p.pair(fns, gen.Pair{S: s, T: []byte(needle)})
 	}
+	// two long arguments that share a long common prefix (or suffix) up to case, with lengths around the
+	// power-of-two block sizes a chunked comparison would use, and then differ in code points that share
+	// their leading byte(s): what a block-wise skip of "equal" bytes must not get wrong
+	p.fam = "common-affix"
+	for i := 0; i < n/2; i++ {
+		base := []int{7, 8, 9, 15, 16, 17, 31, 32, 33, 63, 64, 65, 127, 128, 129, 255, 256, 257, 511, 512, 513}[g.R.Intn(21)]
+		L := base
+		if g.R.Intn(4) == 0 {
+			L += g.R.Intn(5) - 2
+		}
+		var P []byte
+		switch g.R.Intn(3) {
+		case 0:
+			for len(P) < L {
+				P = append(P, "aAbBzZ09"[g.R.Intn(8)])
+			}
+		case 1:
+			P = g.Pad(L, 1, nil)
+		default:
+			for len(P) < L {
+				P = append(P, 'a')
+			}
+		}
+		P2 := append([]byte(nil), P...)
+		if g.R.Intn(2) == 0 {
+			for j, c := range P2 {
+				if ('a' <= c && c <= 'z' || 'A' <= c && c <= 'Z') && g.R.Intn(2) == 0 {
+					P2[j] = c ^ 0x20
+				}
+			}
+		}
+		sib := [][2]string{{"é", "ê"}, {"é", "É"}, {"\u212a", "\u212b"}, {"\u212a", "k"}, {"𐐀", "𐐁"}, {"𐐀", "𐐨"}, {"a", "b"}, {"世", "丗"},
+			{"ß", "ẞ"}, {"ſ", "s"}, {"ſ", "ž"}, {"я", "Я"}, {"я", "ю"}, {"", "x"}, {"é", ""}, {"é", "é"}}[g.R.Intn(16)]
+		x, y := []byte(sib[0]), []byte(sib[1])
+		if g.R.Intn(2) == 0 {
+			x, y = y, x
+		}
+		tailS, tailT := g.Str(g.R.Intn(2)), g.Str(g.R.Intn(2))
+		if g.R.Intn(2) == 0 {
+			tailT = tailS
+		}
+		var s, t []byte
+		if g.R.Intn(3) > 0 {
+			s = append(append(append(s, P...), x...), tailS...)
+			t = append(append(append(t, P2...), y...), tailT...)
+		} else {
+			s = append(append(append(s, tailS...), x...), P...)
+			t = append(append(append(t, tailT...), y...), P2...)
+		}
+		if g.Valid && (!utf8.Valid(s) || !utf8.Valid(t)) {
+			continue
+		}
+		p.pair(fns, gen.Pair{S: s, T: t})
+	}
 	p.fam = "small-exhaustive"
 	stride := 40 / g.Scale
 	if stride < 1 {
 		stride = 1
 	}
 	g.SmallExhaustive(2, 2, stride, func(pr gen.Pair) { p.pair(fns, pr) })
+	// one-byte needles of every ASCII value against their 0x20-neighbours (every two-argument function)
+	p.singleByteCount(fns, n/4)
 }
 
 func (p *planner) runeFamilies(fns []string, n int) {
@@ -221,6 +277,12 @@ func (p *planner) byteFamilies(fns []string, n int) {
 			}
 			if g.R.Intn(4) == 0 && c < 0x80 {
 				s = append(s, byte(unicode.ToUpper(rune(c))), byte(unicode.ToLower(rune(c))))
+			}
+			// the 0x20-neighbours of the byte, before and after it: '[' vs '{', '@' vs '`' must not be folded
+			if g.R.Intn(3) == 0 && c < 0x80 {
+				nb := []byte{byte(c) ^ 0x20, byte(c) | 0x20, byte(c) &^ 0x20}
+				s = append([]byte{nb[g.R.Intn(3)]}, s...)
+				s = append(s, nb[g.R.Intn(3)])
 			}
 			s = append(s, g.Str(g.R.Intn(3))...)
 			if g.R.Intn(3) == 0 {
